@@ -64,7 +64,9 @@ fn state(o: &json_syntax::Object) -> String {
 			format!("{}:{}:{}:{:?}", k, ix.join("."), vs.join("."), o.index_of(*k))
 		})
 		.collect();
-	format!("S {} Q {}", es.join(","), qs.join(";"))
+	let c = o.clone();
+	let cs: Vec<String> = c.iter().map(kv).collect();
+	format!("S {} Q {} C {} {} {:?}", es.join(","), qs.join(";"), c == *o, cs.join(","), c.cmp(o))
 }
 
 /// `obj OP OP ...`: replays a history of Object operations on the REAL Object and prints,
